@@ -113,4 +113,14 @@ def containersNode : Node → List String → List Block
     else containersList kids (cur ++ [name])
 end
 
+mutual
+/-- executable well-nestedness at `p` (the hypothesis of `board_at_pos_innermost`, evaluated by the driver on every
+    tree the real parser produced): a key whose child contains `p` contains `p`; sibling keys never both contain `p` -/
+def wnListB (p : Pos) : List Node → Bool
+  | [] => true
+  | n :: rest => wnNodeB p n && wnListB p rest && (!n.r.has p || rest.all fun m => !m.r.has p)
+def wnNodeB (p : Pos) : Node → Bool
+  | .mk _ r kids => wnListB p kids && kids.all fun k => !k.r.has p || r.has p
+end
+
 end D2V.Lsp
